@@ -123,3 +123,20 @@ Theorem C10_init_estimate_unbiased :
     = Ex U (gf_simulate g args) (fun t => if agreesb (Some obs) t then 1%Qc else 0%Qc).
 Proof. intros U HU g obs args n. apply smc_init_estimate_unbiased. exact HU. Qed.
 Print Assumptions C10_init_estimate_unbiased.
+
+(** One resample-then-extend stage (categorical method; the ancestor vector modelled as N independent
+    draws with probabilities w_i / W, [ResampleLaw.EcatN] the exact expectation over them): with running
+    estimate [est], weights w_i and u(i) the expected incremental weight of extending particle i, the
+    estimate est * mean(w) * mean_j u(a_j) after resampling and extension has the expectation
+    est * mean_i (w_i u(i)) of the estimate obtained by extending without resampling - resampling
+    introduces no bias into the next step (so unbiasedness propagates through hand-composed
+    init / resample / extend pipelines, given the per-particle weight identities above). *)
+From GV Require Lemmas.ResampleLaw.
+Theorem C10_resample_then_extend_unbiased :
+  forall (ws : list Qc) (u : nat -> Qc) (est : Qc) (n : nat),
+    ResampleLaw.sumq ws <> 0%Qc -> (0 < n)%nat ->
+    ResampleLaw.EcatN ws n
+      (fun l => est * (ResampleLaw.sumq ws / ResampleLaw.qcn n) * (ResampleLaw.sumf u l / ResampleLaw.qcn n))%Qc
+    = (est * (ResampleLaw.sumf (fun i => nth i ws 0 * u i) (seq 0 (length ws)) / ResampleLaw.qcn n))%Qc.
+Proof. intros ws u est n HW Hn. apply ResampleLaw.resample_extend_unbiased; assumption. Qed.
+Print Assumptions C10_resample_then_extend_unbiased.
